@@ -3,15 +3,16 @@
 From AGH Require Export Base.Run Model.Stats.
 Local Open Scope Z_scope.
 
-Definition mkE (r d c : Z) (ups : list (Z * bool)) : entry :=
-  {| e_res := r; e_dom := d; e_cli := c; e_ups := ups |}.
+Definition mkE (r d c : Z) (ups : list (Z * bool)) (us : Z) : entry :=
+  {| e_res := r; e_dom := d; e_cli := c; e_ups := ups; e_time := us |}.
 
 (** What the harness reads after a step. *)
 Inductive obs :=
   Obs (panicked : bool)                 (* the step panicked (recovered) *)
       (err : Z)                         (* error classes of the step (bits): 1 Close failed, 2 New failed,
                                            4 reset not 200, 8 GET stats not 200, 16 error-level log record,
-                                           32 file unreadable; the model never fails: 0 *)
+                                           32 file unreadable, 64 flush told the periodic flusher to stop;
+                                           the model never fails: 0 *)
       (cfg_ms : Z) (cfg_en : bool)      (* WriteDiskConfig *)
       (curid : Z)                       (* s.curr.id *)
       (totals : list Z)                 (* num_dns_queries, sum nResult[1], num_blocked_filtering,
@@ -21,7 +22,10 @@ Inductive obs :=
                                            replaced_safebrowsing, replaced_parental *)
       (tops : list (list (Z * Z)))      (* key-sorted top_queried_domains, top_blocked_domains,
                                            top_clients, top_upstreams_responses *)
-      (dbu : list (Z * Z)).             (* id-sorted (id, NTotal) of every bucket in the file *)
+      (dbu : list (Z * Z))              (* id-sorted (id, NTotal) of every bucket in the file *)
+      (avg : Z)                         (* avg_processing_time in whole microseconds *)
+  | ObsSkip.                            (* nothing read after this step (inside a burst of updates,
+                                           between the steps of a reset) *)
 
 Inductive case := CHist (id0 ms0 : Z) (en0 : bool) (steps : list (op * obs)).
 
@@ -41,24 +45,37 @@ Fixpoint ins (k v : Z) (l : list (Z * Z)) : list (Z * Z) :=
 Definition panics (s : state) (o : op) : bool :=
   match o with OUpdate e => update_panics s e | _ => false end.
 
+(** A top list of 100 names is compared above its smallest count only: which
+    of several names tied at the 100th count survive Go's unstable sort over
+    a map's pairs is not determined by the code. *)
+Definition min_count (l : list (Z * Z)) : Z :=
+  match l with [] => 0 | p :: r => fold_left (fun m q => Z.min m (snd q)) r (snd p) end.
+
+Definition stable_part (l : list (Z * Z)) : list (Z * Z) :=
+  if Z.of_nat (length l) <? max_top then l
+  else let m := min_count l in filter (fun p => m <? snd p) l.
+
 Definition observe (p : bool) (s : state) : obs :=
   let d := get_data s in
-  Obs p 0 (lim_ms s) (enabled s) (cur_id s)
+  Obs p (if flush_cont s 0 then 0 else 64) (lim_ms s) (enabled s) (cur_id s)
     [d_num d; num_nf s; d_num_f d; d_num_sb d; d_num_ss d; d_num_p d]
     (d_days d) (Z.of_nat (length (d_dns d)))
     [sparse (d_dns d); sparse (d_blocked d); sparse (d_sb d); sparse (d_par d)]
-    [d_top_dom d; d_top_blk d; d_top_cli d; d_top_up d]
-    (fold_right (fun p acc => ins (fst p) (u_total (snd p)) acc) [] (db s)).
+    (map stable_part [d_top_dom d; d_top_blk d; d_top_cli d; d_top_up d])
+    (fold_right (fun p acc => ins (fst p) (u_total (snd p)) acc) [] (db s))
+    (d_avg d).
 
 Definition eqb_zz (a b : Z * Z) := (fst a =? fst b) && (snd a =? snd b).
 
 Definition eqb_obs (a b : obs) : bool :=
   match a, b with
-  | Obs p1 x1 m1 e1 c1 t1 d1 n1 s1 o1 u1, Obs p2 x2 m2 e2 c2 t2 d2 n2 s2 o2 u2 =>
+  | Obs p1 x1 m1 e1 c1 t1 d1 n1 s1 o1 u1 a1, Obs p2 x2 m2 e2 c2 t2 d2 n2 s2 o2 u2 a2 =>
       Bool.eqb p1 p2 && (x1 =? x2) && (m1 =? m2) && Bool.eqb e1 e2 && (c1 =? c2) &&
       eqb_list Z.eqb t1 t2 && Bool.eqb d1 d2 && (n1 =? n2) &&
-      eqb_list (eqb_list eqb_zz) s1 s2 && eqb_list (eqb_list eqb_zz) o1 o2 &&
-      eqb_list eqb_zz u1 u2
+      eqb_list (eqb_list eqb_zz) s1 s2 && eqb_list (eqb_list eqb_zz) o1 (map stable_part o2) &&
+      eqb_list eqb_zz u1 u2 && (a1 =? a2)
+  | _, ObsSkip => true
+  | ObsSkip, _ => false
   end.
 
 Fixpoint replay (s : state) (steps : list (op * obs)) : bool :=
@@ -66,7 +83,10 @@ Fixpoint replay (s : state) (steps : list (op * obs)) : bool :=
   | [] => true
   | (o, ob) :: rest =>
       let s' := step s o in
-      eqb_obs (observe (panics s o) s') ob && replay s' rest
+      match ob with
+      | ObsSkip => replay s' rest
+      | _ => if eqb_obs (observe (panics s o) s') ob then replay s' rest else false
+      end
   end.
 
 Definition case_ok (c : case) : bool :=
